@@ -4,7 +4,7 @@ package codon
 
 // C18: combining codon tables adds or averages usage and keeps the code.
 //
-// verif:bound C18 add clause: two full 64-codon tables of codes 1/2/11 (quick) or any of the 25 codes (thorough) with 128 symbolic 64-bit weights in [-2^40, 2^40]: every weight is the sum, letters / triplets / start and stop codons are the first table's
+// verif:bound C18 add clause: two full 64-codon tables of any of the 25 codes with 128 symbolic 64-bit weights in [-2^40, 2^40]: every weight is the sum, letters / triplets / start and stop codons are the first table's
 // verif:bound C18 compromise clause: one amino acid with 2 (quick) / 2..3 (thorough) synonymous codons, weights of both tables enumerated over 0..3 (quick) / 0..5 with 2 codons and 0..2 with 3 codons (thorough) with at least one positive weight per table, cut-off a symbolic real in [-1, 2]
 // verif:bound C18 composition clause: compromise of two mini tables (weights enumerated 0..3 | 0..4 with 2 codons and 0..3 with 3 codons, cut-off in {0, 0.2, 0.5, 1}) handed to Optimize: an error when no codon survives, otherwise the emitted codon has both shares at or above the cut-off
 // verif:assume C18 compromise: the shares int(float64(w)/float64(t)*10000) are computed concretely with real float64 arithmetic (weights are concrete on each path); only the cut-off is symbolic and int(10000*cutOff) is abstracted to real arithmetic with truncation (rounding of that product is outside the claim)
@@ -27,12 +27,7 @@ func c18Table(id int, tag string) (Table, map[string]int) {
 }
 
 func Harness_C18_Add() {
-	var id int
-	if vTier(0, 1) == 1 {
-		id = ncbiIDs[vChoice(len(ncbiIDs))]
-	} else {
-		id = []int{1, 2, 11}[vChoice(3)]
-	}
+	id := ncbiIDs[vChoice(len(ncbiIDs))]
 	a, wa := c18Table(id, "a")
 	b, wb := c18Table(id, "b")
 	sum := AddCodonTable(a, b)
